@@ -3,7 +3,7 @@
 # Confirms a seeded change (tests pass with it, DEMO fails with it and passes without), stores it under
 # seeded/<name>/ and runs the property's quick check (and optionally all checks) against the changed tree.
 ID="$1"; WD="${2:-/tmp/seed-$ID}"; NAME="${3:-$ID}"
-OUT="seeded/$NAME"; mkdir -p "$OUT"
+HERE="$(pwd)"; OUT="seeded/$NAME"; mkdir -p "$OUT"
 git -C "$WD" diff -- dissect > "$OUT/patch.diff"
 [ -s "$OUT/patch.diff" ] || { echo "no change in $WD"; exit 2; }
 cp "$WD/DEMO.py" "$OUT/DEMO.py" 2>/dev/null; cp "$WD/NOTES.md" "$OUT/NOTES.md" 2>/dev/null
@@ -15,7 +15,7 @@ echo "tests with change: $T"
 echo "DEMO with change exit=$DW ; on the unchanged repo exit=$DO"
 # the checks run against a copy of the CURRENT /repo with the patch applied (the worktree may predate later fixes)
 RUN=$(mktemp -d /tmp/vp-seedrun-XXXXXX); mkdir -p "$RUN/repo"; (cd /repo && tar -c --exclude=.git --exclude=__pycache__ . ) | tar -x -C "$RUN/repo"
-if ! (cd "$RUN/repo" && patch -p1 -s < "/verif/$OUT/patch.diff"); then echo "patch does not apply to current /repo"; fi
+if ! (cd "$RUN/repo" && patch -p1 -s < "$HERE/$OUT/patch.diff"); then echo "patch does not apply to current /repo"; fi
 WD_RUN="$RUN/repo"
 RES=""
 for P in ${SEED_PROPS:-$ID}; do
